@@ -70,17 +70,27 @@ def gen_cases(rng, tier):
     for i in range(max(4, reps // 10)):
         cases.append({'kind': 'source_fault', 'n': rng.pick([5, 150]), 'at': rng.pick([0, 3, 99, 100, 120]),
                       'via': rng.pick(['results', 'process']), 'parallel': rng.chance(0.4)})
+    # every exception class a source may raise, inside and past the inference sample
+    for j, exc in enumerate(sorted(SRC_EXCS)):
+        for at in (3, 99, 100, 140):
+            cases.append({'kind': 'source_fault', 'n': 150, 'at': at, 'via': ['results', 'process'][(j + at) % 2], 'parallel': False, 'exc': exc})
     return cases
 
 
+SRC_EXCS = {'runtime': lambda m: RuntimeError(m), 'unicode_decode': lambda m: UnicodeDecodeError('utf-8', b'\xff', 0, 1, m),
+            'unicode_encode': lambda m: UnicodeEncodeError('ascii', '\xe9', 0, 1, m), 'unicode': lambda m: UnicodeError(m),
+            'oserror': lambda m: OSError(5, m), 'keyerror': lambda m: KeyError(m), 'value': lambda m: ValueError(m),
+            'eof': lambda m: EOFError(m), 'lookup': lambda m: LookupError(m), 'type': lambda m: TypeError(m)}
+
+
 class FailingSource:
-    def __init__(self, n, at):
-        self.n, self.at = n, at
+    def __init__(self, n, at, exc='runtime'):
+        self.n, self.at, self.exc = n, at, exc
 
     def __iter__(self):
         for i in range(self.n):
             if i == self.at:
-                raise RuntimeError('source failed at %d' % i)
+                raise SRC_EXCS[self.exc]('source failed at %d' % i)
             yield {'_i': i, 'v': i}
 
 
@@ -140,7 +150,7 @@ def run_impl(case):
     if case['kind'] == 'source_fault':
         shutil.rmtree(wd, ignore_errors=True)
         os.makedirs(wd)
-        steps = [FailingSource(case['n'], case['at'])]
+        steps = [FailingSource(case['n'], case['at'], case.get('exc', 'runtime'))]
         if case['parallel']:
             steps.append(DF.parallelize(_pf, num_processors=2))
         steps.append(DF.dump_to_path(os.path.join(wd, 'd')))
@@ -156,7 +166,7 @@ def run_impl(case):
             cause = getattr(e, 'cause', None)
             chain, c = [], cause
             while c is not None and len(chain) < 5:
-                chain.append(type(c).__name__ + ':' + str(c)[:40])
+                chain.append(type(c).__name__ + ':' + str(c)[:160])
                 c = c.__cause__ or getattr(c, 'cause', None)
             out['outcome'] = ['raised', type(e).__name__, chain]
         out['descriptor'] = os.path.exists(os.path.join(wd, 'd', 'datapackage.json'))
@@ -200,7 +210,8 @@ def oracle(case, out):
             return 'the source raised at row %d but the run returned normally (%r rows)' % (case['at'], out.get('rows'))
         if out['outcome'][1] != 'ProcessorError':
             return 'raised %s, not ProcessorError' % out['outcome'][1]
-        if not out['outcome'][2] or not out['outcome'][2][0].startswith('RuntimeError:source failed'):
+        cls = type(SRC_EXCS[case.get('exc', 'runtime')]('x')).__name__
+        if not out['outcome'][2] or not out['outcome'][2][0].startswith(cls + ':') or 'source failed' not in out['outcome'][2][0]:
             return 'ProcessorError.cause is not the exception the source raised: cause chain %r' % (out['outcome'][2],)
         if out['descriptor']:
             return 'a dump descriptor positioned after the failing source was committed'
